@@ -62,13 +62,18 @@ def run(pid, repo, jobs=8):
     mutants = sorted(m for m, ps in exp.get('mutants', {}).items() if pid in ps)
     equivalents = sorted(e for e, ps in exp.get('equivalents', {}).items() if pid in ps)
     work = [(os.path.join(VERIF, 'selftest', 'mutants', m), 1) for m in mutants] + [(os.path.join(VERIF, 'selftest', 'equivalent', e), 0) for e in equivalents]
+    # the confirmed seeded changes filed under this property (seeded/<pid>-*/patch.diff) must be reported by it too
+    seeds = sorted(glob.glob(os.path.join(VERIF, 'seeded', pid + '-*', 'patch.diff')))
+    work += [(sd, 1) for sd in seeds]
     problems = []
-    summary = {'mutants_expected': len(mutants), 'mutants_detected': 0, 'equivalents_expected_silent': len(equivalents), 'equivalents_silent': 0, 'skipped_not_applicable': [], 'detected': []}
+    summary = {'seeded_changes_expected': len(seeds), 'mutants_expected': len(mutants) + len(seeds), 'mutants_detected': 0, 'equivalents_expected_silent': len(equivalents), 'equivalents_silent': 0, 'skipped_not_applicable': [], 'detected': []}
     with concurrent.futures.ThreadPoolExecutor(max_workers=jobs) as ex:
         futs = {ex.submit(run_one, pid, repo, patch): (patch, want) for patch, want in work}
         for fu in concurrent.futures.as_completed(futs):
             patch, want = futs[fu]
             name = os.path.basename(patch)
+            if name == 'patch.diff':
+                name = 'seeded/' + os.path.basename(os.path.dirname(patch))
             _, rc, first = fu.result()
             if rc is None:
                 summary['skipped_not_applicable'].append(name)
